@@ -254,6 +254,9 @@ class CompSX:
         else:
             p.model.add_subsystem(name, comp, promotes=["*"])
         p.setup(force_alloc_complex=True)
+        if getattr(comp, "_oasverif_resetup", False):
+            p.final_setup()
+            p.setup(force_alloc_complex=True)          # the same Problem set up a second time (a user script that re-configures)
         p.final_setup()
         self.prob = p
         self.comp = comp
